@@ -11,6 +11,7 @@ RULE = (
     "operation executed (plus the amount of an explicit adjust), and at the end the day-by-day identity dV = MTM of previous positions + flows + non-flow adjustments - fees - "
     "bid/offer is recomputed from the recorded series for the root and every sub-strategy. backtest: the same day-by-day identity on grammar-generated backtests "
     "(flat, nested, shorts, all cost models, CapitalFlow) and on fixed-income roots with coupon-paying securities (coupons less holding costs of the previous date enter). "
+    "reopen: a security opened, closed, left idle for 0-4 dates while its price moves, and opened again through Rebalance, an allocation to the child, strategy-level transact with update=False (RollPositionsAfterDates' idiom), rebalance / security-level transact with update=False; same day-by-day identity. "
     "non-trivial = at least two dates with open positions and one costed trade. distinct = distinct spec hashes."
 )
 ASSUMPTIONS = ["non-flow adjustments and flows injected directly into descendants are known to the driver", "tolerance 1e-9 relative to capital + 1e-6 absolute"]
@@ -182,10 +183,59 @@ def backtest_spec(draw):
     return spec
 
 
-STRATS = {"history": machine.history_spec, "backtest": backtest_spec, "fi": _fi_spec}
+@st.composite
+def reopen_spec(draw):
+    """a security is opened, closed, lies idle for a generated number of dates while its price moves, and is opened again through one of
+    the ways a stack trades (Rebalance, allocation to the child, strategy-level transact with update=False as RollPositionsAfterDates
+    does, rebalance / security-level transact with update=False): buying at the current price changes the value by the costs only"""
+    lead, held, gap, tail = draw(st.sampled_from([0, 1, 2])), draw(st.sampled_from([1, 1, 2])), draw(st.sampled_from([0, 1, 2, 2, 3, 4])), draw(st.sampled_from([0, 1, 2]))
+    d1 = lead
+    d2 = d1 + held
+    d3 = d2 + 1 + gap
+    n = d3 + 1 + tail
+    ds = draw(gen.dates(n, n, kinds=("bday", "daily")))
+    nt = draw(st.integers(1, 3))
+    tickers = gen.TICKERS[:nt]
+    pr = {t: draw(gen.price_path(n, vol=0.03, decimals=4)) for t in tickers}
+    x = tickers[0]
+    how = draw(st.sampled_from(["strategy_transact", "strategy_transact", "rebalance", "transact", "allocate_child", "lazy", "Rebalance"]))
+
+    def on(i, algo):
+        return ["Or", {"algos": [["Stack", {"algos": [["RunOnDate", {"dates": [ds[i]]}], algo]}], ["Const", {"v": True}]]}]
+
+    frac = draw(st.sampled_from([0.2, 0.5, -0.3]))
+    frac2 = draw(st.sampled_from([0.1, 0.4, -0.2]))
+    algos = [on(d1, ["TradeNoUpdate", {"child": x, "frac": frac, "how": "lazy"}]), on(d2, ["CloseChild", {"child": x}])]
+    if how == "Rebalance":
+        algos.append(on(d3, ["Stack", {"algos": [["WeighSpecified", {"weights": {x: abs(frac2)}}], ["Rebalance", {}]]}]))
+    else:
+        algos.append(on(d3, ["TradeNoUpdate", {"child": x, "frac": frac2 if how != "rebalance" else abs(frac2), "how": how}]))
+    if nt > 1 and how != "Rebalance":
+        # the rest of the book is held throughout
+        algos.insert(0, on(0, ["Stack", {"algos": [["WeighSpecified", {"weights": {t: round(0.4 / (nt - 1), 4) for t in tickers[1:]}}], ["Rebalance", {}]]}]))
+    spec = {
+        "dates": ds,
+        "prices": pr,
+        "rng_seed": 0,
+        "frames": {},
+        "additional": [],
+        "integer_positions": draw(st.booleans()),
+        "initial_capital": 1e6,
+        "fee": draw(gen.fee_spec(gen.min_price(pr), kinds=("none", "none", "fixed", "prop"))),
+        "tree": {"name": "root", "kind": draw(st.sampled_from(["Strategy", "Strategy", "FixedIncomeStrategy"])), "algos": algos, "children": [{"sec": t, "kind": "Security", "mult": draw(st.sampled_from([1, 1, 10]))} if draw(st.integers(0, 3)) else t for t in tickers]},
+        "user_algos": "reopen_after_%d_idle_dates_via_%s" % (min(d3 - d2 - 1, 3), how),
+    }
+    if draw(st.integers(0, 2)) == 0:
+        spec["bidoffer"] = {t: [round(0.002 * v, 6) for v in pr[t]] for t in tickers}
+    return spec
+
+
+SUBS["reopen"] = case_backtest
+STRATS = {"history": machine.history_spec, "backtest": backtest_spec, "fi": _fi_spec, "reopen": reopen_spec}
 
 
 def shard(ctx):
     run_sub(ctx, "history", machine.history_spec(min_ops=5, max_ops=30), lambda s: case_history(ctx, s), ctx.n(1600, 30000))
     run_sub(ctx, "backtest", backtest_spec(), lambda s: case_backtest(ctx, s), ctx.n(1000, 20000))
     run_sub(ctx, "fi", _fi_spec(), lambda s: case_fi(ctx, s), ctx.n(600, 10000))
+    run_sub(ctx, "reopen", reopen_spec(), lambda s: case_backtest(ctx, s), ctx.n(800, 12000))
